@@ -118,6 +118,14 @@ def inline_call(caller_raw, bi, callee_fn):
             args.append({"c": {"l": place["l"], "p": list(place["p"]) + [{"f": k - 2, "ty": pl["ty"]["s"]}]}})
     for i, a in enumerate(args):
         pl = cb["locals"][i + 1]
+        if i == 0 and callee_fn.kind == "Closure" and (pl["ty"]["t"] or {}).get("k") == "ref" and \
+                not str((t.get("aty") or ["&"])[0]).startswith("&") and (a.get("m") or a.get("c")):
+            # call_once on a closure whose body borrows its environment: the by-value shim passes a reference to it
+            blk["stmts"].append({"s": "assign", "lhs": {"l": lb + 1, "p": []},
+                                 "rv": {"r": "ref", "mut": str(bool(pl["ty"]["t"].get("mut"))).lower(), "fake": "false",
+                                        "p": a.get("m") or a.get("c")},
+                                 "lty": pl["ty"]["t"], "sp": sp, "inl_arg": helper})
+            continue
         blk["stmts"].append({"s": "assign", "lhs": {"l": lb + i + 1, "p": []}, "rv": {"r": "use", "a": a},
                              "lty": pl["ty"]["t"], "sp": sp, "inl_arg": helper})
     dest, target = t["dest"], t["target"]
@@ -135,6 +143,68 @@ def inline_call(caller_raw, bi, callee_fn):
         else:
             nb["term"] = _shift_term(bt, lb, pb, bb)
         body["blocks"].append(nb)
+
+
+FN_TRAITS = ("core::ops::function::FnOnce::call_once", "core::ops::function::FnMut::call_mut",
+             "core::ops::function::Fn::call")
+
+
+def resolve_closure_calls(raw, closure_paths):
+    """after a helper taking a closure parameter has been spliced in, its `body(args)` is a Fn-trait call whose receiver is
+    a local of the caller: follow the receiver back through single plain assignments (moves, copies, references) to the
+    closure expression that created it and record that closure as the callee.  Returns True when a callee was found."""
+    body = raw["body"]
+    assigns = {}
+    for b in body["blocks"]:
+        for st in b["stmts"]:
+            if st.get("s") == "assign" and not st["lhs"]["p"]:
+                assigns.setdefault(st["lhs"]["l"], []).append(st["rv"])
+    # call destinations are definitions too
+    for b in body["blocks"]:
+        t = b["term"]
+        if t["t"] == "call" and t.get("dest") and not t["dest"]["p"]:
+            assigns.setdefault(t["dest"]["l"], []).append({"r": "call"})
+
+    def origin(l, depth=0):
+        if depth > 12:
+            return None
+        rvs = assigns.get(l, [])
+        if len(rvs) != 1:
+            return None
+        rv = rvs[0]
+        if rv.get("r") == "agg" and (rv.get("kind") or {}).get("a") == "closure":
+            return rv["kind"]["path"]
+        pl = None
+        if rv.get("r") == "use":
+            a = rv["a"]
+            pl = a.get("m") or a.get("c")
+        elif rv.get("r") == "ref":
+            pl = rv.get("p") or rv.get("place")
+        if isinstance(pl, dict) and "l" in pl and all(pe == "deref" or pe == {"deref": True} or (isinstance(pe, str) and pe == "*") for pe in pl["p"]):
+            return origin(pl["l"], depth + 1)
+        return None
+    found = False
+    for b in body["blocks"]:
+        if b["cleanup"]:
+            continue
+        t = b["term"]
+        if t["t"] != "call":
+            continue
+        f = t.get("f") or {}
+        if f.get("path") not in FN_TRAITS or f.get("res") in closure_paths or not t["args"]:
+            continue
+        a = t["args"][0]
+        pl = a.get("m") or a.get("c")
+        if not isinstance(pl, dict) or "l" not in pl:
+            continue
+        if not all(pe == "*" for pe in pl["p"]):
+            continue
+        c = origin(pl["l"])
+        if c in closure_paths:
+            f["res"] = c
+            f["via_param"] = True
+            found = True
+    return found
 
 
 def inline_unknown_helpers(F):
@@ -189,6 +259,7 @@ def inline_unknown_helpers(F):
     for p in sorted(ok):
         visit(p)
     inlined_into = {p: set() for p in ok}
+    closure_paths = {p for p, f in F.fns.items() if f.kind == "Closure"}
 
     def expand(f):
         changed = False
@@ -198,6 +269,7 @@ def inline_unknown_helpers(F):
                 break
             bi, c = sites[0]
             inline_call(f.raw, bi, F.fns[c])
+            resolve_closure_calls(f.raw, closure_paths)
             inlined_into[c].add(f.path)
             for h, into in inlined_into.items():
                 if c in into:
